@@ -64,11 +64,9 @@ func genC03Cli(r *hysim.Rand, tier string) *hysim.Script {
 			sc.Ops = append(sc.Ops, hysim.Op{K: "pause", A: []int64{int64(r.Range(1, nsess)), int64(r.Pick(0, 1))}})
 		case p < 67:
 			fs := int64(r.Range(1, nsess))
-			sc.Ops = append(sc.Ops, hysim.Op{K: "flood", A: []int64{fs, int64(r.Pick(10, 200, 1100, 1500))}})
-			if r.Chance(1, 2) {
-				// the application closes the session while replies for it are being dispatched
-				sc.Ops = append(sc.Ops, hysim.Op{K: "close", A: []int64{fs}})
-			}
+			// third argument 1: the application closes the session while the replies for it are
+			// still being dispatched (the per-op quiescence comes only after both)
+			sc.Ops = append(sc.Ops, hysim.Op{K: "flood", A: []int64{fs, int64(r.Pick(3, 10, 200, 1100, 1500)), int64(r.Pick(0, 1))}})
 		case p < 73:
 			sc.Ops = append(sc.Ops, hysim.Op{K: "close", A: []int64{int64(r.Range(1, nsess))}})
 		case p < 78:
@@ -294,6 +292,19 @@ func execC03Cli(x *hysim.Run) {
 			x.Ev("flood of %d datagrams at session %d", n, sid)
 			if rd := w.readers[sid]; rd != nil && rd.paused && n > 1024 {
 				x.Probe("receive-channel-overflow")
+			}
+			if rd := w.readers[sid]; op.Arg(2) == 1 && rd != nil && rd.id != w.canaryID && !rd.closed {
+				rd.closed = true
+				x.Ev("session %d closed locally while %d replies are in flight", rd.id, n)
+				mut.Guard(x, "udpConn.Close", nil, func() { rd.conn.Close() })
+				if rd.paused {
+					rd.paused = false
+					select {
+					case rd.resume <- struct{}{}:
+					default:
+					}
+				}
+				x.Probe("session-closed-with-replies-in-flight")
 			}
 		case "close":
 			if rd := w.readers[uint32(op.Arg(0))]; rd != nil && rd.id != w.canaryID && !rd.closed {
